@@ -90,7 +90,6 @@ type accepted struct {
 }
 
 type hub struct {
-	mu sync.Mutex
 	ch chan accepted
 }
 
@@ -101,7 +100,7 @@ func (h *hub) wait(tid string, d time.Duration) (accepted, error) {
 	for {
 		select {
 		case a := <-h.ch:
-			if a.tid != tid { // left over from a case whose set-up was given up
+			if a.tid != tid && !(a.tid == "" && a.err != nil) { // left over from a case whose set-up was given up
 				if a.tr != nil {
 					go a.tr.Close()
 				}
@@ -139,7 +138,7 @@ func startWT(queue int) (*wtServer, error) {
 	if err != nil {
 		return nil, err
 	}
-	s := &wtServer{hub: newHub(), addr: fmt.Sprintf("localhost:%d", pc.LocalAddr().(*net.UDPAddr).Port)}
+	s := &wtServer{hub: newHub(), addr: fmt.Sprintf("127.0.0.1:%d", pc.LocalAddr().(*net.UDPAddr).Port)}
 	s.sv = &webtransgo.Server{
 		CheckOrigin: func(r *http.Request) bool { return true },
 		H3:          http3.Server{TLSConfig: testTLS(), QUICConfig: &quicgo.Config{EnableDatagrams: true}},
@@ -193,7 +192,7 @@ func startQUIC(queue int) (*quicServer, error) {
 	if err != nil {
 		return nil, err
 	}
-	s := &quicServer{lis: lis, hub: newHub(), addr: fmt.Sprintf("localhost:%d", lis.Addr().(*net.UDPAddr).Port)}
+	s := &quicServer{lis: lis, hub: newHub(), addr: fmt.Sprintf("127.0.0.1:%d", lis.Addr().(*net.UDPAddr).Port)}
 	go func() {
 		for {
 			sess, err := lis.Accept(context.Background())
@@ -297,8 +296,13 @@ func (p *pair) close() {
 	done := make(chan struct{})
 	go func() {
 		defer close(done)
-		p.cli.Close()
-		p.srv.Close()
+		// both ends at once: a WebSocket close handshake waits for the peer's close frame
+		var wg sync.WaitGroup
+		for _, e := range []endpoint{p.cli, p.srv} {
+			wg.Add(1)
+			go func(e endpoint) { defer wg.Done(); e.Close() }(e)
+		}
+		wg.Wait()
 	}()
 	select {
 	case <-done:
